@@ -14,6 +14,7 @@ CONSTANTS
   PeerFaults = {}
   DeadlineBeforeLock = FALSE
   NoGuard = FALSE
+  GuardPerClient = FALSE
   RearmPerRead = FALSE
   NoCloseOnError = FALSE
 VIEW View
@@ -34,3 +35,4 @@ INVARIANT BoundedReturn
 INVARIANT Released
 INVARIANT NoCrossedReplyStrict
 INVARIANT TimelyAnswerAccepted
+INVARIANT GuardExclusive
